@@ -19,6 +19,12 @@ inductive Ev where
   /-- after an execution that nobody else rescheduled: clock before / after the result was processed,
       resulting next_check, and the interval in force -/
   | window (nowBefore nowAfter next interval : Int)
+  /-- an operation that changes `active`/`paused` of `c` (pause, resume, activation, deactivation) begins: until it has
+      completed nothing is claimed about `c`'s membership -/
+  | opBegin (c : Nat)
+  /-- such an operation has completed (its ObjectHandler calls have returned): from now on `c` is / is not this node's to
+      schedule (active ∧ ¬paused ∧ local zone) -/
+  | authority (c : Nat) (schedulable : Bool)
   /-- at quiescence (no operation in flight): attributes and membership of `c` -/
   | quiescent (c : Nat) (schedulable inIdle inPending : Bool) (key next : Int)
   deriving Repr, DecidableEq
@@ -31,6 +37,8 @@ inductive Clause where
   | concurrency_bound       -- more than max_concurrent_checks executions at once
   | exec_end_unmatched      -- a result without a running execution (trace malformed)
   | next_check_window       -- next check not in (now, now + interval]
+  | scheduled_while_not_responsible  -- paused / inactive (operation completed) but in the idle or pending set at a lock release
+  | dropped_from_schedule   -- schedulable (operation completed) but in neither set at a lock release
   | quiescent_location      -- schedulable but in no set / unschedulable but in a set / in both
   | quiescent_key           -- idle under a key that is not its next_check
   deriving Repr, DecidableEq
@@ -43,18 +51,40 @@ def Clause.name : Clause → String
   | .concurrency_bound => "concurrency_bound"
   | .exec_end_unmatched => "exec_end_unmatched"
   | .next_check_window => "next_check_window"
+  | .scheduled_while_not_responsible => "scheduled_while_not_responsible"
+  | .dropped_from_schedule => "dropped_from_schedule"
   | .quiescent_location => "quiescent_location"
   | .quiescent_key => "quiescent_key"
 
-/-- Specification state: the checkables whose command is executing right now. -/
+/-- Specification state: the checkables whose command is executing right now, and for every checkable whose last
+    authority-changing operation has completed whether it is this node's to schedule. -/
 structure SpecSt where
   max : Int
   executing : List Nat := []
+  known : List (Nat × Bool) := []
   deriving Repr
+
+/-- what is known about `c` (nothing while an operation on it is in flight) -/
+def getKnown (k : List (Nat × Bool)) (c : Nat) : Option Bool :=
+  match k with
+  | [] => none
+  | (c', b) :: rest => if c' = c then some b else getKnown rest c
+
+def dropKnown (k : List (Nat × Bool)) (c : Nat) : List (Nat × Bool) :=
+  match k with
+  | [] => []
+  | (c', b) :: rest => if c' = c then dropKnown rest c else (c', b) :: dropKnown rest c
 
 /-- Check one observation against the state before it. -/
 def specStep (sp : SpecSt) : Ev → Option Clause
-  | .loc _ i p => if i && p then some .one_location else none
+  | .loc c i p =>
+    if i && p then some .one_location
+    else match getKnown sp.known c with
+      | some false => if i || p then some .scheduled_while_not_responsible else none
+      | some true => if i || p then none else some .dropped_from_schedule
+      | none => none
+  | .opBegin _ => none
+  | .authority _ _ => none
   | .slot k m => if 0 ≤ k ∧ k < m then none else some .concurrency_slot
   | .decision _ f s => if f && s then some .forced_runs else none
   | .execStart c =>
@@ -71,6 +101,8 @@ def specStep (sp : SpecSt) : Ev → Option Clause
 def specNext (sp : SpecSt) : Ev → SpecSt
   | .execStart c => { sp with executing := c :: sp.executing }
   | .execEnd c => { sp with executing := sp.executing.erase c }
+  | .opBegin c => { sp with known := dropKnown sp.known c }
+  | .authority c b => { sp with known := (c, b) :: dropKnown sp.known c }
   | _ => sp
 
 /-- Whole trace: first violated clause, if any. -/
